@@ -582,3 +582,57 @@ def bounded_roundtrip(u: U):
     u.check("C14.bounded.roundtrip", not bad,
             f"{n} (template, value) pairs: url_for() then resolve() gives the values back; failing: {bad[:4]}",
             known=[("F14a", bool(bad) and not other)], witness={"failing": bad[:6]})
+
+
+@unit("C14", "static.resolve", functions=[f"{MOD}:StaticResource.resolve"])
+def static_resolve(u: U):
+    """StaticResource.resolve: matches a path only if its normalised form lies under the prefix; the method must be
+    allowed; match_info['filename'] is the REQUEST path after the prefix and one '/', taken verbatim (empty segments and
+    a trailing slash are kept: '/s//f' names '/f', which the handler refuses as absolute)"""
+    path = SText.fresh("path_safe")
+    prefix = SText.fresh("prefix")
+    norm = SText.fresh("normpath")
+    u.assume(prefix.startswith("/"))
+
+    class _os:
+        class path:
+            @staticmethod
+            def normpath(p):
+                stubs.used("os.path.normpath: some string (only its relation to the prefix is used)")
+                return norm
+
+    class _RelUrl:
+        path_safe = path
+
+    allowed = u.choose(2, "method_allowed") == 1
+
+    class _Req:
+        rel_url = _RelUrl()
+        method = "GET" if allowed else "PUT"
+
+    r = u.obj("StaticResource", {"_prefix": prefix, "_prefix2": prefix + "/", "_allowed_methods": {"GET", "HEAD"},
+                                 "_routes": {"GET": "ROUTE-GET"}}, {}, shared=False)
+    f = u.load(MOD, "StaticResource.resolve",
+               globals={"os": _os, "IS_WINDOWS": False, "_unquote_path_safe": lambda v: ("UNQ", v),
+                        "UrlMappingMatchInfo": lambda md, route: ("MI", md, route)})
+    out = u.call(f, r, _Req())
+    u.check("C14.static.total", out.ok, repr(out))
+    if not out.ok:
+        return
+    mi, al = out.value
+    under = Or(norm.startswith(prefix + "/"), norm == prefix)
+    if mi is None:
+        u.check("C14.static.no_match_reason", Or(Not(under), bool(not allowed)),
+                "no match only if the normalised path leaves the prefix or the method is not allowed")
+        u.check("C14.static.allowed_iff_under_prefix", Iff(under, bool(al)), "allowed methods are reported exactly for paths under the prefix")
+    else:
+        u.check("C14.static.match_needs_prefix_and_method", And(under, bool(allowed)), "a match needs both")
+        fn = mi[1]["filename"]
+        ok = isinstance(fn, tuple) and fn[0] == "UNQ" and isinstance(fn[1], SText) and getattr(fn[1], "suffix_of", None) is path
+        u.check("C14.static.filename_from_request_path", ok,
+                "the filename is a suffix of the request path itself (not of its normalised form)")
+        if ok:
+            u.check("C14.static.filename_after_prefix",
+                    mk_bool(z3.Length(fn[1].t) == z3.If(z3.Length(path.t) - z3.Length(prefix.t) - 1 < 0, 0,
+                                                        z3.Length(path.t) - z3.Length(prefix.t) - 1)),
+                    "it starts right after the prefix and one '/'")
